@@ -422,8 +422,9 @@ def _do_lift(body, lift, log, fname):
                     why='Verus does not support closures capturing &mut'))
     body = body[:rs] + new + body[pc + 1:]
     for a, b in lift.renames:
-        n = closure_body.count(a)
-        closure_body = closure_body.replace(a, b)
+        # a captured path may be split over lines by rustfmt (`self\n    .request_data`): match it up to whitespace
+        rx = r'\s*'.join(re.escape(tok) for tok in re.split(r'(\.)', a) if tok)
+        closure_body, n = re.subn(r'(?<![\w.])' + rx + r'\b', b, closure_body)
         log.append(dict(rule='R8:captured-path', part='lifted', count=n, matched=[a], replaced_by=b, why='captured path becomes a parameter'))
     return body, closure_body
 
